@@ -68,13 +68,15 @@ def b1_model(pid, tier, seed, model, wd):
     t0 = time.time()
     l, res = dump_lts(model, wd)
     words = gen_tour(l)
-    depth = 3 if tier == "quick" else 4
-    words += gen_all_words(l, depth, cap=60000 if tier == "quick" else 400000)
-    words += gen_random_walks(l, 300 if tier == "quick" else 5000, 40, rng)
-    if tier == "thorough":
-        words += gen_cover_words(l, 2, rng, per_state=12)
+    # C20 executes every script under 4-5 concretisations: it keeps the quick script set in both tiers (all of
+    # it in the thorough tier, every 4th script in the quick tier) so that memory stays bounded
+    deep = tier == "thorough" and pid != "C20"
+    depth = 4 if deep else 3
+    words += gen_all_words(l, depth, cap=150000 if deep else 60000)
+    words += gen_random_walks(l, 5000 if deep else 300, 40, rng)
+    if deep:
+        words += gen_cover_words(l, 2, rng, per_state=8)
     if pid == "C20" and tier == "quick":
-        # three executions per script: keep the volume comparable
         words = words[::4]
     scripts = []
     meta = {}
@@ -387,7 +389,7 @@ def run(pid, tier, seed):
         # meanwhile: B1 on every LTS model (serial here; each uses up to 12 adapter processes)
         b1stats = []
         models = list(LTS_QUICK)
-        with cf.ProcessPoolExecutor(max_workers=8) as pex:
+        with cf.ProcessPoolExecutor(max_workers=8 if tier == "quick" else 4) as pex:
             pf = [pex.submit(b1_model, pid, tier, seed, model, wd) for model in models]
             b2stats = b2(pid, tier, seed, wd, rep)
             for f in pf:
